@@ -110,7 +110,6 @@ func (fs *FileStorage) GetMessages(offset uint64) ([]storage.Message, error) {
 		msgs []storage.Message
 		err  error
 		row  []byte
-		data storage.Message
 	)
 	if _, err = fs.dataFile.Seek(0, 0); err != nil {
 		return nil, fmt.Errorf("failed to seek a offset to the start of a data file:  %w", err)
@@ -123,6 +122,10 @@ func (fs *FileStorage) GetMessages(offset uint64) ([]storage.Message, error) {
 			offset--
 			continue
 		}
+
+		// a fresh value for every line: json.Unmarshal leaves absent fields as they are, and a line
+		// without some keys must not inherit them from the line read before it in the same call
+		var data storage.Message
 
 		row = scanner.Bytes()
 		if err = json.Unmarshal(row, &data); err != nil {
